@@ -354,3 +354,108 @@ pub fn inflight(t: &mut Toks) -> String {
     rt.shutdown_background();
     out
 }
+
+/// case: realstop <kind 0|1> <nrows> <gap_ms>
+///   a REAL node (agent::start_with_config: API, gossip, change handler, buffered-apply loop, sync
+///   loop ...) with a real subscription.  kind 0: one remote version of <nrows> rows is offered to
+///   the change handler; kind 1: the same version arrives as two chunks, is buffered, and the
+///   buffered-apply loop applies it.  <gap_ms> after the work was handed over the node shuts down
+///   exactly as command/agent.rs does: tripwire, the handles returned by start_with_config
+///   awaited, drop_handles, pending handles awaited.  Then the files are copied (after the
+///   database stopped changing) and a node is started on them.
+/// obs: applied=<rows in the database at the copy> meta= restored= rows=<matview> db=<query>
+pub fn realstop(t: &mut Toks) -> String {
+    use klukai_types::{actor::ActorId, broadcast::ChangeSource};
+    let rt = tokio::runtime::Builder::new_multi_thread().worker_threads(4).enable_all().build().unwrap();
+    let kind = t.u64();
+    let nrows = t.i64();
+    let gap = t.u64();
+    vh::MANUAL.store(false, SeqCst);
+    let out = rt.block_on(async move {
+        let base = tempfile::tempdir().unwrap();
+        let dir = base.path().join("n0");
+        std::fs::create_dir_all(&dir).unwrap();
+        let (tripwire, worker, tw_tx) = Tripwire::new_simple();
+        let mut worker = tokio::spawn(async move { worker.await; });
+        let config = Config::builder()
+            .db_path(dir.join("corrosion.db").display().to_string())
+            .gossip_addr("127.0.0.1:0".parse().unwrap())
+            .api_addr("127.0.0.1:0".parse().unwrap())
+            .build()
+            .unwrap();
+        let (agent, _bookie, _transport, handles) = klukai_agent::agent::start_with_config(config, tripwire.clone()).await.unwrap();
+        let (status, _) = api_v1_db_schema(axum::Extension(agent.clone()), axum::Json(vec![agentkit::SCHEMA.to_owned()])).await;
+        assert!(status.is_success(), "schema");
+        let sql = normalize_sql(SQL).unwrap();
+        let subs_path = agent.config().db.subscriptions_path();
+        let (handle, created) = agent.subs_manager().get_or_insert(&sql, &subs_path, &agent.schema().read(), agent.pool(), tripwire.clone()).unwrap();
+        let mut evt_rx = created.unwrap().evt_rx;
+        let id = handle.id().to_string();
+        let t0 = Instant::now();
+        loop {
+            match tokio::time::timeout(Duration::from_millis(50), evt_rx.recv()).await {
+                Ok(Some(QueryEvent::EndOfQuery { .. })) => break,
+                Ok(Some(_)) => {}
+                _ => if t0.elapsed() > Duration::from_secs(20) { break },
+            }
+        }
+        tokio::spawn(async move { while evt_rx.recv().await.is_some() {} });
+        drop(handle);
+        let actor = ActorId(uuid::Uuid::from_u128(0xfeed));
+        let changes: Vec<_> = (0..nrows).map(|i| agentkit::mk_change(actor, 1, i as u64, 1000 + i, "remote", 1, 1)).collect();
+        let last = (nrows - 1) as u64;
+        if kind == 0 {
+            let cv = agentkit::full(actor, 1, changes, 0, last, last, 1);
+            agent.tx_changes().send((cv, ChangeSource::Sync)).await.unwrap();
+        } else {
+            let half = (nrows / 2) as usize;
+            let c2 = agentkit::full(actor, 1, changes[half..].to_vec(), half as u64, last, last, 1);
+            let c1 = agentkit::full(actor, 1, changes[..half].to_vec(), 0, half as u64 - 1, last, 1);
+            agent.tx_changes().send((c2, ChangeSource::Sync)).await.unwrap();
+            agent.tx_changes().send((c1, ChangeSource::Sync)).await.unwrap();
+            // wait until both chunks are buffered: the apply loop has been told
+            let t2 = Instant::now();
+            loop {
+                let n: i64 = match agent.pool().read().await { Ok(c) => c.query_row("SELECT COUNT(*) FROM __corro_buffered_changes", [], |r| r.get(0)).unwrap_or(0), Err(_) => 0 };
+                let applied: i64 = match agent.pool().read().await { Ok(c) => c.query_row("SELECT COUNT(*) FROM tests WHERE id >= 1000", [], |r| r.get(0)).unwrap_or(0), Err(_) => 0 };
+                if n >= nrows || applied > 0 || t2.elapsed() > Duration::from_secs(30) { break; }
+                tokio::time::sleep(Duration::from_millis(2)).await;
+            }
+        }
+        tokio::time::sleep(Duration::from_millis(gap)).await;
+        // ---- graceful shutdown, command/agent.rs
+        let _ = tw_tx.send(()).await;
+        let _ = tokio::time::timeout(Duration::from_secs(5), &mut worker).await;
+        for h in handles {
+            let _ = tokio::time::timeout(Duration::from_secs(120), h).await;
+        }
+        agent.subs_manager().drop_handles().await;
+        let _ = tokio::time::timeout(Duration::from_secs(20), wait_for_all_pending_handles()).await;
+        // the runtime waits for blocking sections that are still running
+        let mut lastn = -1i64;
+        let mut stable = 0;
+        let t1 = Instant::now();
+        while stable < 10 && t1.elapsed() < Duration::from_secs(60) {
+            let n: i64 = match agent.pool().read().await { Ok(c) => c.query_row("SELECT COUNT(*) FROM tests WHERE id >= 1000", [], |r| r.get(0)).unwrap_or(-1), Err(_) => -1 };
+            if n == lastn { stable += 1 } else { stable = 0; lastn = n; }
+            tokio::time::sleep(Duration::from_millis(50)).await;
+        }
+        let ndir = base.path().join("n1");
+        copy_dir(&dir, &ndir);
+        let meta = meta_state(&ndir, &id);
+        let live2 = start(&ndir).await;
+        tokio::time::sleep(Duration::from_millis(300)).await;
+        let handles2 = live2.agent.subs_manager().get_handles();
+        let mut line = format!("applied={} meta={} restored={}", lastn, meta, handles2.len());
+        if let Some(h) = handles2.values().next() {
+            let (rows, _, _) = sub_state(h).await;
+            let nr = if rows.is_empty() { 0 } else { rows.split(';').count() };
+            let db = db_rows(&live2.agent).await;
+            let nd = if db.is_empty() { 0 } else { db.split(';').count() };
+            line.push_str(&format!(" rows={} db={}", nr, nd));
+        }
+        line
+    });
+    rt.shutdown_background();
+    out
+}
